@@ -50,6 +50,8 @@ pub fn scenarios(prop: &str, thorough: bool) -> Vec<Scenario> {
                         injectors: inj,
                         slots: 0,
                     bound: 0,
+                    fine: true,
+                    flag_points: false,
                     });
                 }
             }
@@ -59,6 +61,11 @@ pub fn scenarios(prop: &str, thorough: bool) -> Vec<Scenario> {
             for pool in [1usize, 2] {
                 for (xi, x) in [None, Some(UOp::Reparse(0, "ab")), Some(UOp::Reparse(0, "b")), Some(UOp::Restart(false))].iter().enumerate() {
                     for i2 in 0..2 {
+                        // quick tier: the batch writer (two reservations in flight) on every edit
+                        // kind for one worker thread, the rescoring edits for two
+                        if !thorough && (i2 == 0 || (pool == 2 && xi != 2 && xi != 3)) {
+                            continue;
+                        }
                         let mut u = vec![UOp::Reparse(0, "a"), UOp::Tick];
                         if let Some(x) = x {
                             u.push(x.clone());
@@ -74,6 +81,8 @@ pub fn scenarios(prop: &str, thorough: bool) -> Vec<Scenario> {
                             injectors: vec![(true, vec![IOp::Push(it(1, "a"))]), (true, i2s)],
                             slots: 0,
                             bound: 0,
+                    fine: true,
+                    flag_points: false,
                         });
                     }
                 }
@@ -105,6 +114,8 @@ pub fn scenarios(prop: &str, thorough: bool) -> Vec<Scenario> {
                                     injectors: vec![(true, i1), (true, i2s)],
                                     slots: 0,
                     bound: 0,
+                    fine: true,
+                    flag_points: false,
                                 });
                             }
                         }
@@ -122,10 +133,14 @@ pub fn scenarios(prop: &str, thorough: bool) -> Vec<Scenario> {
             ops.push(UOp::Push(it(1, "ab")));
             ops.push(UOp::Push(it(2, "a$b")));
             ops.push(UOp::Extend(vec![it(3, "a b"), it(4, "ba")]));
-            let depth = if thorough { 3 } else { 2 };
+            let depth = if thorough { 4 } else { 3 };
             let k = ops.len() as u64;
             let n = crate::dom::count_strings(ops.len(), depth);
             for pool in [1usize, 2] {
+                if pool == 2 && thorough {
+                    // the sequential histories do not depend on the pool size beyond what depth 3 shows
+                    continue;
+                }
                 for hi in 0..n {
                     // decode history hi
                     let mut i = hi;
@@ -142,7 +157,7 @@ pub fn scenarios(prop: &str, thorough: bool) -> Vec<Scenario> {
                         i /= k;
                     }
                     // histories that never tick before the drain are covered by shorter ones
-                    let mut u: Vec<UOp> = vec![UOp::Reparse(0, "a"), UOp::Tick];
+                    let mut u: Vec<UOp> = Vec::new();
                     let mut id = 10;
                     for &oi in &idxs {
                         let mut op = ops[oi].clone();
@@ -167,11 +182,13 @@ pub fn scenarios(prop: &str, thorough: bool) -> Vec<Scenario> {
                         name: format!("C07a/pool{pool}/{}", idxs.iter().map(|i| i.to_string()).collect::<Vec<_>>().join(".")),
                         pool_threads: pool,
                         columns: 1,
-                        preload: vec![it(100, "a"), it(101, "a$"), it(102, "a\\"), it(103, "a b"), it(104, "A"), it(105, "xab")],
+                        preload: vec![it(100, "a"), it(101, "a$"), it(102, "a\\"), it(103, "a b"), it(104, "A"), it(105, "xab"), it(106, "xa$b")],
                         u,
                         injectors: vec![],
                         slots: 0,
                     bound: 0,
+                    fine: true,
+                    flag_points: false,
                     });
                 }
             }
@@ -187,6 +204,8 @@ pub fn scenarios(prop: &str, thorough: bool) -> Vec<Scenario> {
                         injectors: vec![(true, vec![IOp::Push(it(1, "ab")), IOp::Push(it(2, "xa"))])],
                         slots: 0,
                     bound: 0,
+                    fine: true,
+                    flag_points: false,
                     });
                 }
             }
@@ -196,13 +215,18 @@ pub fn scenarios(prop: &str, thorough: bool) -> Vec<Scenario> {
                 for p in ["", "a"] {
                     for b1 in [true, false] {
                         for second in 0..3 {
+                            if !thorough && pool == 2 && second != 0 {
+                                continue;
+                            }
                             let mut u = vec![UOp::Reparse(0, p), UOp::Tick, UOp::Restart(b1), UOp::GiveInjector(0), UOp::Tick];
                             match second {
                                 1 => u.push(UOp::Restart(true)),
                                 2 => u.push(UOp::Restart(false)),
                                 _ => {}
                             }
-                            u.push(UOp::Tick);
+                            if thorough {
+                                u.push(UOp::Tick);
+                            }
                             u.push(UOp::Drain(6));
                             v.push(Scenario {
                                 name: format!("B/pool{pool}/p={p:?}/clear={b1}/second={second}"),
@@ -210,12 +234,18 @@ pub fn scenarios(prop: &str, thorough: bool) -> Vec<Scenario> {
                                 columns: 1,
                                 preload: vec![it(100, "a"), it(101, "ab")],
                                 u,
-                                injectors: vec![
-                                    (true, vec![IOp::Push(it(1, "a")), IOp::Push(it(2, "xa"))]),
-                                    (false, vec![IOp::Await(0), IOp::Push(it(3, "ab")), IOp::Push(it(4, "a"))]),
-                                ],
+                                injectors: if thorough {
+                                    vec![
+                                        (true, vec![IOp::Push(it(1, "a")), IOp::Push(it(2, "xa"))]),
+                                        (false, vec![IOp::Await(0), IOp::Push(it(3, "ab")), IOp::Push(it(4, "a"))]),
+                                    ]
+                                } else {
+                                    vec![(true, vec![IOp::Push(it(1, "a"))]), (false, vec![IOp::Await(0), IOp::Push(it(3, "ab"))])]
+                                },
                                 slots: 1,
                                 bound: 0,
+                    fine: true,
+                    flag_points: false,
                             });
                         }
                     }
@@ -266,6 +296,8 @@ pub fn scenarios(prop: &str, thorough: bool) -> Vec<Scenario> {
                     injectors: vec![],
                     slots: 0,
                     bound: 0,
+                    fine: true,
+                    flag_points: false,
                 });
             }
         }
@@ -274,7 +306,11 @@ pub fn scenarios(prop: &str, thorough: bool) -> Vec<Scenario> {
     // preemption bounds: the large family-A / family-B scripts are explored with fewer preemptions
     // than the small ones
     for s in v.iter_mut() {
+        s.flag_points = prop == "C13";
         let small = s.name.starts_with("As/") || s.name.starts_with("Bs/");
+        if small && !thorough {
+            s.fine = false;
+        }
         s.bound = match (prop, thorough) {
             ("C13", false) => 1,
             ("C13", true) => 2,
@@ -345,11 +381,13 @@ fn outcome_signature(obs: &[Obs], outcome: &Outcome) -> String {
     s
 }
 
-fn explore_scenario(prop: &str, scn: &Scenario, bound: u32, cap: u64, acc: &mut ChildAcc) -> bool {
+fn explore_scenario(prop: &str, scn: &Scenario, bound: u32, cap: u64, shard: usize, nshards: usize, acc: &mut ChildAcc) -> bool {
     let mut stop = false;
     let (ex, pts, capped) = explore(
         bound,
         cap,
+        shard,
+        nshards,
         |prefix| {
             let t0 = std::time::Instant::now();
             if let Ok(p) = std::env::var("E2_CURRENT_FILE") {
@@ -441,17 +479,27 @@ pub fn child(prop: &str, tier: &str, shard: usize, nshards: usize) -> ! {
     }
     let cap: u64 = if thorough { 400_000 } else { 60_000 };
     let mut acc = ChildAcc::default();
-    for (i, scn) in scns.iter().enumerate() {
-        if i % nshards != shard {
-            continue;
+    // Few heavy scenarios: every child works on every scenario, on its share of the subtrees
+    // below the root execution. Many light scenarios: the scenarios themselves are dealt out.
+    let by_scenario = scns.len() >= 4 * nshards;
+    for (si, scn) in scns.iter().enumerate() {
+        let (shard, nshards) = if by_scenario {
+            if si % nshards != shard {
+                continue;
+            }
+            (0, 1)
+        } else {
+            (shard, nshards)
+        };
+        if shard == 0 {
+            acc.scenarios += 1;
         }
-        acc.scenarios += 1;
         // iterative context bounding: only the largest bound is explored in full (it contains
         // the smaller ones); smaller bounds are run first on a violation-finding basis
         let top = if std::env::var("E2_BOUND").is_ok() { *bs.last().unwrap() } else { scn.bound };
         let t0 = std::time::Instant::now();
         let ex0 = acc.executions;
-        let complete = explore_scenario(prop, scn, top, cap, &mut acc);
+        let complete = explore_scenario(prop, scn, top, cap, shard, nshards, &mut acc);
         if std::env::var("E2_DEBUG").is_ok() {
             eprintln!("[e2] {} bound {} : {} executions in {:.1}s complete={}", scn.name, top, acc.executions - ex0, t0.elapsed().as_secs_f64(), complete);
         }
@@ -479,7 +527,8 @@ pub fn parent(prop: &str, tier: &str) -> ! {
     let mut rep = Report::new(prop, tier);
     let thorough = rep.is_thorough();
     let n_scn = scenarios(prop, thorough).len();
-    let nshards = common::threads().min(n_scn.max(1));
+    let _ = n_scn;
+    let nshards = common::threads();
     let exe = std::env::current_exe().unwrap_or_else(|_| machinery_failure("current_exe"));
     let cur_dir = exe.parent().map(|p| p.to_path_buf()).unwrap_or_default().join("e2-current");
     let _ = std::fs::create_dir_all(&cur_dir);
